@@ -411,6 +411,10 @@ pub mod shim_sysapi {
         open spec fn accepts(w: Wire) -> bool { w is Own }
     }
 
+    /// std
+    pub assume_specification<T>[core::mem::replace](dest: &mut T, src: T) -> (r: T)
+        ensures r == *old(dest), *final(dest) == src;
+
     // ================================================================================ indexmap extras ==
     // (inherent impls on the types of shims/maps.rs / shims/sets.rs; same crate, other module)
     impl<K, V> IndexMap<K, V> {
